@@ -54,6 +54,22 @@ CHECKS = {
              'held by the network; TLC judges every consumer step.',
         note='Trusted: as C01; delivery unit = notifications of one commit; restart emulated on the same provider object.',
         design_ref='6/C06'),
+    'C07': dict(
+        technique='TLA+ spec Threads.tla: TLC enumerates all interleavings of thread programs recorded from the real handlers; every schedule is executed on real threads by a deterministic scheduler; TLC trace validation (ThreadsTrace.tla)',
+        text='Thread programs (lock acquire/release of mdib_lock and the transaction lock, version-group access, MdibVersion write, send) are '
+             'recorded from the real GetMdib/GetMdDescription/GetMdState/GetContextStates handlers and from real transactions. TLC enumerates every '
+             'interleaving the lock semantics admit; each is replayed on real threads; the responses (parsed by the real consumer client) are judged '
+             'against the per-version history of the provider MDIB of the same run: content, counters and selected entity set belong to the stated MdibVersion.',
+        note='Trusted: atomic step = traced point to traced point; scheduler (verif/sched.py); loop-back transport.',
+        design_ref='6/C07'),
+    'C08': dict(
+        technique='TLA+ spec Subscription.tla model-checked by TLC; behaviours executed on the real subscription managers (virtual clock, gated housekeeping, scripted delivery failures); TLC trace validation (SubscriptionTrace.tla)',
+        text='TLC checks the manager model exhaustively (2 subscribers, 3 subscriptions, 2 actions, max duration 2 ticks) and generates request/tick/report/'
+             'housekeeping/stop sequences. They run against a real SdcProvider (sync+async managers, path and reference-parameter dispatch) with real SOAP '
+             'requests; TLC judges every step: delivered iff alive and matching, granted <= min(requested, max), status consistent, unknown ids fault and change '
+             'nothing, exactly one SubscriptionEnd per live subscription at the right address.',
+        note='Trusted: virtual clock patched into subscriptionmgr_base, loop-back transport raising the scripted exceptions, MAX_NOTIFY_ERRORS read at run time.',
+        design_ref='6/C08'),
 }
 
 NOT_YET = 'check not built yet in this round (see DESIGN.md section 10 build order); no claim made'
